@@ -101,10 +101,36 @@ pub fn check(c: &OpCase, run: &OpsRun, info: &mut CaseInfo) -> Result<(), String
             }
         }
     }
+    // (3b) ObjectsBeingTransferred: every transfer start publishes a new instance (automatically, inside
+    // read()); once that instance shows up, no object packet may lie between the start and its completion
+    let mut auto_pending = false;
+    if !c.sender.full_fdt {
+        for (i, r) in log.iter().enumerate() {
+            if !matches!(r.kind, RecKind::Start(_)) {
+                continue;
+            }
+            let next_new = insts.iter().filter(|f| f.first_idx > i).map(|f| (f.first_idx, f.complete_idx, f.id)).min();
+            if let Some((first, complete, id)) = next_new {
+                let limit = complete.unwrap_or(log.len());
+                for idx in i..limit.min(log.len()) {
+                    if let Some((_, d)) = log[idx].pkt() {
+                        if d.lct.toi != 0 {
+                            return Err(format!(
+                                "the transfer start at log position {} published FDT instance {} (first packet #{}, complete at {:?}), but packet #{} of TOI {} was emitted before that instance was completely sent",
+                                i, id, first, complete, idx, d.lct.toi
+                            ));
+                        }
+                    }
+                }
+                auto_pending |= log[..i].iter().any(|r| r.pkt().map(|(_, d)| d.lct.toi != 0).unwrap_or(false));
+            }
+        }
+    }
     // (4) FullFDT: an object added after the last publication emits nothing (implied by 1) - label only
     let late_add = run.added.iter().any(|a| a.add_idx > run.polls.first().map(|p| p.idx).unwrap_or(usize::MAX));
     let two_pending = run.publishes.windows(2).any(|w| !log[w[0].idx..w[1].idx].iter().any(|r| r.pkt().is_some()) || insts.iter().any(|f| f.first_idx > w[0].idx && f.complete_idx.map(|c| c > w[1].idx).unwrap_or(true) && f.first_idx < w[1].idx));
-    info.nt(late_add || two_pending);
+    info.nt(late_add || two_pending || auto_pending);
+    info.label_if(auto_pending, "automatic publication while another object was in flight");
     info.label_if(late_add, "object added after the first read");
     info.label_if(two_pending, "two instances pending at once");
     info.label(if c.sender.full_fdt { "FullFDT" } else { "ObjectsBeingTransferred" });
